@@ -409,8 +409,13 @@ class VM:
         return completed
 
     # ------------------------------------------------------------ values from literals / types
-    def const_value(self, text, env):
+    def const_value(self, text, env, fname=None):
         t = text.strip()
+        mp = re.search(r'::(promoted\[\d+\])$', t)
+        if mp and fname is not None:
+            key = fname + '::' + mp.group(1)
+            if key in self.prog.consts:
+                return self._eval_const(key, self.prog.consts[key])
         m = _lit_int.match(t)
         if m:
             bits, signed = INT_TYPES[m.group(2)]
@@ -433,7 +438,7 @@ class VM:
         if t == '()':
             return ()
         if t.startswith('"'):
-            return t
+            return Ref(Cell(t, "str"))
         if t.startswith("'") and t.endswith("'"):
             return I(z3.BitVecVal(ord(t[1:-1].encode().decode('unicode_escape')), 32), False)
         if t.startswith('{closure@'):
@@ -479,6 +484,8 @@ class VM:
             val = self.const_value(v[1], {})
         else:
             val = self.exec_fn(v[1], [], {})
+        if 'promoted[' in name:
+            return val  # holds references to per-evaluation cells
         self._const_cache[name] = val
         return val
 
@@ -577,7 +584,7 @@ class VM:
     # ------------------------------------------------------------ operands / rvalues
     def operand(self, frame, op):
         if op.kind == 'const':
-            return self.const_value(op.const, frame.env)
+            return self.const_value(op.const, frame.env, frame.fn.name)
         return self.read_place(frame, op.place)
 
     def rvalue(self, frame, rv, dest_ty=None):
